@@ -300,15 +300,20 @@ func genJWT(r *hv.Rng) (string, hv.Val) {
 		clv = append(clv, hv.L{hv.Z(cl[j][0]), hv.Z(cl[j][1])})
 	}
 	// extra column (ignored by the model): the key set index
-	return class, hv.L{hv.I(2), hv.S(authH), hv.Bool(malformed), hv.I(alg), clv, hv.Z(jwtNow), kv, hv.I(set)}
+	route := 0
+	if r.Chance(1, 20) {
+		route = r.Range(1, 2)
+		class = "jwt-notcovered"
+	}
+	return class, hv.L{hv.I(2), hv.S(authH), hv.Bool(malformed), hv.I(alg), clv, hv.Z(jwtNow), kv, hv.I(route), hv.I(set)}
 }
 
 func implJWT(l []hv.Val) hv.Val {
-	set := int(hv.AsInt(l[7]))
+	set := int(hv.AsInt(l[8]))
 	now := hv.AsInt(l[5])
 	jwt.TimeFunc = func() time.Time { return time.Unix(now, 0) }
 	a := hv.AsStr(l[1])
-	ok, st, www := mod_auth_jwt.VerifJWT(keyFile(set), a, a != "")
+	ok, st, www := mod_auth_jwt.VerifJWT(int(hv.AsInt(l[7])), keyFile(set), a, a != "")
 	if !ok && !strings.HasPrefix(www, "Bearer realm=") {
 		st = -2
 	}
@@ -316,7 +321,7 @@ func implJWT(l []hv.Val) hv.Val {
 }
 
 // ---------------- secure link
-const linkNow = 2000000000 // nominal clock; generated expiries keep far away from the real clock and from this value
+const linkNow = 2000000000 // nominal clock of absolute cases; their expiries keep decades away from the real clock
 
 func genLink(r *hv.Rng) (string, hv.Val) {
 	class := "link"
@@ -325,14 +330,17 @@ func genLink(r *hv.Rng) (string, hv.Val) {
 	qv := r.Pick([]string{"v1", "", "a b", "x/y"})
 	host := r.Pick([]string{"example.org", "a.example.org:8080"})
 	expires := ""
-	switch r.Intn(10) {
+	mode := 0
+	now := int64(linkNow)
+	switch r.Intn(12) {
 	case 0:
 		expires = ""
 		if hasExp {
 			class = "link-noexpires"
 		}
 	case 1:
-		expires = r.Pick([]string{"abc", "12x", " 5000000000", "5000000000 ", "0x10", "1e10", "99999999999999999999", "-", "+", "5_000_000_000"})
+		expires = r.Pick([]string{"abc", "12x", " 5000000000", "5000000000 ", "0x10", "1e10", "99999999999999999999", "-", "+", "5_000_000_000",
+			"9223372036854775808", "-9223372036854775809"})
 		if hasExp {
 			class = "link-badexpires"
 		}
@@ -346,24 +354,27 @@ func genLink(r *hv.Rng) (string, hv.Val) {
 		if hasExp {
 			class = "link-expired"
 		}
+	case 5, 6:
+		// relative to the wall clock at the time of the call (the checker reads time.Now): expires = now + delta.
+		// delta <= -1 is expired whatever time passes; delta >= 20 stays fresh unless the call stalls for 20 s.
+		mode = 1
+		now = 0
+		d := pick(r, -1, -1, -2, -60, -3600, 20, 20, 60, 3600)
+		expires = strconv.Itoa(d)
+		if hasExp {
+			class = "link-rel-fresh"
+			if d < 0 {
+				class = "link-rel-expired"
+			}
+		}
 	default:
 		expires = r.Pick([]string{"5000000000", "+5000000000", "9223372036854775807", "4102444800", "05000000000"})
 	}
-	uri := "/s/link"
-	raw := label + qv + host + uri // nodes: label, query "v", host, uri (uri completed below)
-	_ = raw
-	q := url.Values{}
-	if qv != "" {
-		q.Set("v", qv)
-	}
-	if expires != "" {
-		q.Set("expires", expires)
-	}
-	// the request URI is fixed before the checksum is known (as a signer would): checksum covers label, v, host, expires
-	digest := md5.Sum([]byte(label + qv + host + expires))
+	// the checksum covers label, query value v and host
+	digest := md5.Sum([]byte(label + qv + host))
 	want := strings.TrimRight(base64.URLEncoding.EncodeToString(digest[:]), "=")
 	checksum := want
-	switch r.Intn(8) {
+	switch r.Intn(9) {
 	case 0:
 		checksum = ""
 		class += "-nochecksum"
@@ -381,18 +392,18 @@ func genLink(r *hv.Rng) (string, hv.Val) {
 	case 4:
 		checksum = base64.StdEncoding.EncodeToString(digest[:]) // padded standard alphabet
 		class += "-stdb64"
+	case 5:
+		checksum = strings.ToLower(want)
+		class += "-case"
 	}
-	if checksum != "" {
-		q.Set("md5", checksum)
-	}
-	return class, hv.L{hv.I(3), hv.Bool(hasExp), hv.S(expires), hv.S(checksum), hv.B(digest[:]), hv.Z(linkNow),
-		hv.S(label), hv.S(host), hv.S(q.Encode())}
+	return class, hv.L{hv.I(3), hv.Bool(hasExp), hv.S(expires), hv.S(checksum), hv.B(digest[:]), hv.Z(now),
+		hv.S(label), hv.S(host), hv.S(qv), hv.I(mode)}
 }
 
 func implLink(l []hv.Val) hv.Val {
 	cc := &mod_secure_link.CheckerConfig{ChecksumKey: "md5",
 		ExpressionNodes: []mod_secure_link.ExpressionNodeFile{{Type: "label", Param: hv.AsStr(l[6])}, {Type: "query", Param: "v"},
-			{Type: "host"}, {Type: "Query", Param: "expires"}}}
+			{Type: "Host"}}}
 	if hv.AsInt(l[1]) != 0 {
 		cc.ExpiresKey = "expires"
 	}
@@ -400,7 +411,21 @@ func implLink(l []hv.Val) hv.Val {
 	if err != nil {
 		return hv.Err(1)
 	}
-	rawq := hv.AsStr(l[8])
+	q := url.Values{}
+	if v := hv.AsStr(l[8]); v != "" {
+		q.Set("v", v)
+	}
+	if e := hv.AsStr(l[2]); e != "" {
+		if hv.AsInt(l[9]) == 1 { // relative: delta seconds from the wall clock
+			d, _ := strconv.ParseInt(e, 10, 64)
+			e = strconv.FormatInt(time.Now().Unix()+d, 10)
+		}
+		q.Set("expires", e)
+	}
+	if c := hv.AsStr(l[3]); c != "" {
+		q.Set("md5", c)
+	}
+	rawq := q.Encode()
 	hreq := &bfe_http.Request{Method: "GET", Header: make(bfe_http.Header), Host: hv.AsStr(l[7]),
 		URL: &url.URL{Path: "/s/link", RawQuery: rawq}, RequestURI: "/s/link?" + rawq}
 	req := &bfe_basic.Request{HttpRequest: hreq}
@@ -500,7 +525,12 @@ func genBasic(r *hv.Rng) (string, hv.Val) {
 	for _, k := range users {
 		uv = append(uv, hv.L{hv.S(k.name), hv.Bool(auth.CheckSecret(presentedPw, k.hash)), hv.S(k.hash)})
 	}
-	return class, hv.L{hv.I(1), hv.S(authH), hv.Bool(dok), hv.B(decoded), uv}
+	route := 0
+	if r.Chance(1, 20) {
+		route = r.Range(1, 2)
+		class = "basic-notcovered"
+	}
+	return class, hv.L{hv.I(1), hv.S(authH), hv.Bool(dok), hv.B(decoded), uv, hv.I(route)}
 }
 
 func implBasic(l []hv.Val) hv.Val {
@@ -510,7 +540,7 @@ func implBasic(l []hv.Val) hv.Val {
 		users[hv.AsStr(e[0])] = hv.AsStr(e[2])
 	}
 	a := hv.AsStr(l[1])
-	ok, st, www := mod_auth_basic.VerifBasic(users, a, a != "")
+	ok, st, www := mod_auth_basic.VerifBasic(int(hv.AsInt(l[5])), users, a, a != "")
 	if !ok && !strings.HasPrefix(www, "Basic realm=") {
 		st = -2
 	}
